@@ -122,6 +122,14 @@ class Interp(Engine):
             self.exec_block(s.orelse, env)
 
     def st_Assign(self, s, env):
+        if len(s.targets) == 1 and isinstance(s.targets[0], ast.Name) and isinstance(env.get(s.targets[0].id), FoldAcc):
+            name = s.targets[0].id
+            v = s.value
+            if isinstance(v, ast.BinOp) and isinstance(v.left, ast.Name) and v.left.id == name and \
+                    _BINOPS.get(type(v.op)) == env[name].op:
+                self.loops[-1].effects.append(('fold', name, self.eval(v.right, env), env[name].op))
+                return
+            raise Undecided(f'accumulator {name!r} assigned in an unsupported form')
         v = self.eval(s.value, env)
         for t in s.targets:
             self.assign(t, v, env)
@@ -136,9 +144,9 @@ class Interp(Engine):
             cur = env.get(s.target.id)
             if isinstance(cur, FoldAcc):
                 rhs = self.eval(s.value, env)
-                if op != '+':
-                    raise Undecided('accumulator updated by an operator other than +')
-                self.loops[-1].effects.append(('fold', s.target.id, rhs))
+                if op != cur.op:
+                    raise Undecided('accumulator updated by different operators')
+                self.loops[-1].effects.append(('fold', s.target.id, rhs, op))
                 return
             cur = self.eval(ast.Name(id=s.target.id, ctx=ast.Load()), env)
             rhs = self.eval(s.value, env)
@@ -526,6 +534,12 @@ class Interp(Engine):
             for name in assigned:
                 if name in pre_env:
                     env2[name] = Carried(name, pre_env[name])
+            if comp is None:
+                for name, fop in _fold_candidates(body).items():
+                    if name in pre_env and not isinstance(pre_env[name], (Carried, FoldAcc, Poison)):
+                        acc = FoldAcc(name, pre_env[name])
+                        acc.op = fop
+                        env2[name] = acc
             loop.effects = []
             loop.carried_reads = set()
             del self.pc[base_pc:]
@@ -649,7 +663,7 @@ class Interp(Engine):
                 elif e[0] == 'clause':
                     clauses.setdefault(id(e[1]), (e[1], []))[1].append((pi, e[2]))
                 elif e[0] == 'fold':
-                    folds.setdefault(e[1], {}).setdefault(pi, []).append(e[2])
+                    folds.setdefault((e[1], e[3]), {}).setdefault(pi, []).append(e[2])
         for key in set(appends) & set(extends):
             raise Undecided('list both appended to and extended in one loop')
         # ---- appends
@@ -756,7 +770,17 @@ class Interp(Engine):
                 cl = ([(i, z3.IntVal(0), n)] + list(bound), z3.And(paths[pi]['guard'], g), index, val)
                 self.store_clause(arr, cl)
         # ---- folds
-        for name, per_path in folds.items():
+        fold_names = set()
+        for (name, fop), per_path in folds.items():
+            fold_names.add(name)
+            pre = pre_env[name]
+            if isinstance(pre, (Carried, FoldAcc)):
+                pre = pre.pre
+            if fop == '|':
+                env[name] = self._or_fold(i, n, paths, per_path, pre)
+                continue
+            if fop != '+':
+                raise Undecided(f'accumulation with operator {fop}')
             terms = []
             for pi, p in enumerate(paths):
                 vs = per_path.get(pi, [])
@@ -771,14 +795,11 @@ class Interp(Engine):
                     terms.append((p['guard'], acc))
             body = terms[0][1] if len(terms) == 1 else CaseV(terms)
             total = self.make_sum(i, n, body)
-            pre = pre_env[name]
-            if isinstance(pre, Carried):
-                pre = pre.pre
             env[name] = self.binop('+', pre, total)
         # ---- last-write-wins variables
         last = [(i, n - 1)]
         for name in assigned:
-            if name in folds:
+            if name in fold_names:
                 continue
             vals = []
             for p in paths:
@@ -869,6 +890,44 @@ class Interp(Engine):
         new = SeqV(length=z3.simplify(n0 + total), elem=elem, kind=lst.kind, esort=esort)
         new.blocks = dict(n=nn, off=off_at, blen=blen, block=block_at, n0=n0)
         self._replace_list(lst, new)
+
+    def _or_fold(self, i, n, paths, per_path, pre):
+        """acc = acc | term(i) over a symbolic loop: element-wise OR of boolean 1-D arrays (or of booleans):
+        result[j] = pre[j] or EXISTS i in [0, n): term(i)[j]"""
+        terms = []
+        for pi, p in enumerate(paths):
+            for v in per_path.get(pi, []):
+                terms.append((p['guard'], v))
+
+        def pre_cell(j):
+            if isinstance(pre, ArrV) and len(pre.shape) == 1 and not pre.clauses and pre.fill == 0:
+                return z3.BoolVal(False)
+            if isinstance(pre, SeqV):
+                return self._zb(self.truth(self.seq_elem(pre, j)))
+            raise Undecided('OR-accumulator with an unsupported initial value')
+        if isinstance(pre, (bool,)) or (isinstance(pre, SV) and pre.kind == 'bool'):
+            w = z3.Int(fresh_name('oi'))
+            pairs = [(i, w)]
+            self.subst_facts(pairs)
+            ex = [z3.And(z3.substitute(g, *pairs), self._zb(self.truth(self.subst(v, pairs)))) for g, v in terms]
+            return SV(z3.Or(self._zb(self.truth(pre)), z3.Exists([w], z3.And(w >= 0, w < n, z3.Or(ex)))), 'bool')
+        if isinstance(pre, ArrV) and len(pre.shape) == 1:
+            length = pre.shape[0] if z3.is_expr(pre.shape[0]) else z3.IntVal(pre.shape[0])
+        elif isinstance(pre, SeqV):
+            length = pre.zlen()
+        else:
+            raise Undecided('OR-accumulator with an unsupported initial value')
+        for _, v in terms:
+            if not isinstance(v, SeqV):
+                raise Undecided('OR-accumulation of a non-array term')
+
+        def elem(j):
+            w = z3.Int(fresh_name('oi'))
+            pairs = [(i, w)]
+            self.subst_facts(pairs)
+            ex = [z3.And(z3.substitute(g, *pairs), self._zb(self.truth(self.seq_elem(self.subst(v, pairs), j)))) for g, v in terms]
+            return SV(z3.Or(pre_cell(j), z3.Exists([w], z3.And(w >= 0, w < n, z3.Or(ex)))), 'bool')
+        return SeqV(length=length, elem=elem, kind='array')
 
     def make_sum(self, i, n, body):
         """Sum_{i<n} body(i) as an opaque value (only congruence is known about Sum)"""
@@ -2103,6 +2162,61 @@ def lst_copy(s):
     c.filt = getattr(s, 'filt', None)
     c.blocks = getattr(s, 'blocks', None)
     return c
+
+
+def _fold_candidates(body):
+    """names X whose only uses in the loop body are accumulations `X += e`, `X |= e`, `X = X + e`, `X = X | e` (one
+    operator per name, not inside a nested loop, X not read otherwise): name -> operator"""
+    ops, bad, acc_loads = {}, set(), {}
+
+    def visit(stmts, nested):
+        for st in stmts:
+            if isinstance(st, ast.AugAssign) and isinstance(st.target, ast.Name):
+                op = _BINOPS.get(type(st.op))
+                nm = st.target.id
+                if nested or op not in ('+', '|') or ops.setdefault(nm, op) != op:
+                    bad.add(nm)
+            elif isinstance(st, ast.Assign):
+                for t in st.targets:
+                    for nd in ast.walk(t):
+                        if isinstance(nd, ast.Name):
+                            nm = nd.id
+                            v = st.value
+                            ok = (len(st.targets) == 1 and isinstance(t, ast.Name) and isinstance(v, ast.BinOp)
+                                  and isinstance(v.left, ast.Name) and v.left.id == nm
+                                  and _BINOPS.get(type(v.op)) in ('+', '|') and not nested)
+                            if ok and ops.setdefault(nm, _BINOPS[type(v.op)]) == _BINOPS[type(v.op)]:
+                                acc_loads[nm] = acc_loads.get(nm, 0) + 1
+                            else:
+                                bad.add(nm)
+            elif isinstance(st, (ast.For, ast.While)):
+                for nd in ast.walk(st.target) if isinstance(st, ast.For) else []:
+                    if isinstance(nd, ast.Name):
+                        bad.add(nd.id)
+                visit(st.body, True)
+                visit(st.orelse, True)
+                continue
+            elif isinstance(st, (ast.AnnAssign, ast.With, ast.Delete, ast.FunctionDef, ast.Try, ast.Import, ast.ImportFrom)):
+                for nd in ast.walk(st):
+                    if isinstance(nd, ast.Name) and isinstance(nd.ctx, (ast.Store, ast.Del)):
+                        bad.add(nd.id)
+            if isinstance(st, ast.If):
+                visit(st.body, nested)
+                visit(st.orelse, nested)
+    visit(body, False)
+    loads = {}
+    for st in body:
+        for nd in ast.walk(st):
+            if isinstance(nd, ast.Name) and isinstance(nd.ctx, ast.Load):
+                loads[nd.id] = loads.get(nd.id, 0) + 1
+    out = {}
+    for nm, op in ops.items():
+        if nm in bad:
+            continue
+        if loads.get(nm, 0) != acc_loads.get(nm, 0):
+            continue            # read somewhere else in the body
+        out[nm] = op
+    return out
 
 
 def _as_load(t):
